@@ -2,10 +2,16 @@
    `handle_packet s p = (s', HOk true)` is "the message is surfaced to the application" (process_received hands
    exactly that decoded packet to poll()/recv()); `ack_appended s s' a` is "acknowledgement a joins the tail of the
    control queue and nothing else in the outbound state changes"; `refused` is the explicit residue: the control
-   queue already holds 8 entries, or the acknowledgement alone exceeds the broker's Maximum Packet Size. *)
+   queue already holds 8 entries, or the acknowledgement alone exceeds the broker's Maximum Packet Size.
+   The residue is excluded at the end of the file: the client drains before it reads — in EVERY execution every inbound
+   packet was handled with nothing left to write (C04_drained_before_every_inbound_packet, ghost flag w_drained set by
+   process_received) — and in such a state, with a broker limit of at least five bytes, the acknowledgement joins an
+   EMPTY control queue (C04_drained_not_refused and the *_drained forms of the handling theorems).  As every
+   acknowledgement is therefore written and flushed before the next packet is read, acknowledgements reach the wire
+   in arrival order. *)
 From Coq Require Import List NArith.
 From Minimq Require Import Bytes Varint Utf8 Props Ser De Reader Arena Core Show Machine Run.
-From Minimq Require Import CodecProofs Lts Inbound InboundReach.
+From Minimq Require Import CodecProofs Lts Inbound InboundReach WireInv Drain.
 Import ListNotations.
 Open Scope N_scope.
 
@@ -86,6 +92,48 @@ Theorem C04_first_fresh_ack_first : forall l e, find (fun e => matches_priority 
   exists pre post, l = pre ++ e :: post /\ Forall (fun x => is_fresh (ce_st x) = false) pre.
 Proof. exact first_fresh_ack_first. Qed.
 
+(* ---------------- the residue `refused` is excluded ---------------- *)
+(* every execution: whenever process_received handed a packet to handle_packet, next_step was None *)
+Theorem C04_drained_before_every_inbound_packet : forall c, w_drained (run_case c) = true.
+Proof. exact reachable_drained. Qed.
+
+(* the flag is not constant: a reachable run that handled a QoS 2 PUBLISH keeps it, a hand-made world with a packet in
+   the reader and a half-written publish loses it *)
+Theorem C04_drained_flag_not_vacuous :
+  w_drained ex_q2 = true /\ s_srv (w_sess ex_q2) = [7] /\ w_live ex_q2 = true /\
+  w_drained ex_undrained = true /\ w_drained (fst (process_received ex_undrained)) = false.
+Proof. exact drained_examples. Qed.
+
+Theorem C04_drained_not_refused : forall s a hr, Drained s -> AckFits s -> ~ refused s a hr.
+Proof. exact drained_not_refused. Qed.
+
+Theorem C04_qos1_acked_then_delivered_drained : forall s t id r d ps pl s' hr, Drained s -> AckFits s ->
+  handle_packet s (RPublish t (Some id) Q1 r d ps pl) = (s', hr) ->
+  let rc := if mem_id id (s_srv s) then 145 else 0 in
+  hr = HOk true /\ ack_appended s s' (CPubAck id rc) /\ s_srv s' = s_srv s /\ ob_ctl (s_ob s') = [fresh_ctl (CPubAck id rc)].
+Proof. exact qos1_acked_then_delivered_drained. Qed.
+
+Theorem C04_qos2_first_arrival_drained : forall s t id r d ps pl s' hr, Drained s -> AckFits s ->
+  handle_packet s (RPublish t (Some id) Q2 r d ps pl) = (s', hr) ->
+  mem_id id (s_srv s) = false -> glen (s_srv s) < MAX_INBOUND_QOS2 ->
+  s_srv s' = s_srv s ++ [id] /\ hr = HOk true /\ ack_appended s s' (CPubRec id 0) /\ ob_ctl (s_ob s') = [fresh_ctl (CPubRec id 0)].
+Proof. exact qos2_first_arrival_drained. Qed.
+
+Theorem C04_qos2_duplicate_drained : forall s t id r d ps pl s' hr, Drained s -> AckFits s ->
+  handle_packet s (RPublish t (Some id) Q2 r d ps pl) = (s', hr) -> mem_id id (s_srv s) = true ->
+  s_srv s' = s_srv s /\ hr = HOk false /\ ack_appended s s' (CPubRec id 0).
+Proof. exact qos2_duplicate_drained. Qed.
+
+Theorem C04_pubrel_pending_drained : forall s id rc s' hr, Drained s -> AckFits s ->
+  handle_packet s (RPubRel id rc) = (s', hr) -> mem_id id (s_srv s) = true ->
+  exists l, swap_remove_id id (s_srv s) = Some l /\ s_srv s' = l /\ hr = HOk false /\ ack_appended s s' (CPubComp id 0).
+Proof. exact pubrel_pending_drained. Qed.
+
+Theorem C04_pubrel_unknown_drained : forall s id rc s' hr, Drained s -> AckFits s ->
+  handle_packet s (RPubRel id rc) = (s', hr) -> mem_id id (s_srv s) = false ->
+  s_srv s' = s_srv s /\ hr = HOk false /\ ack_appended s s' (CPubComp id 146).
+Proof. exact pubrel_unknown_drained. Qed.
+
 Print Assumptions C04_publish_decoded_as_sent.
 Print Assumptions C04_properties_decoded_as_sent.
 Print Assumptions C04_qos0_delivered.
@@ -100,3 +148,11 @@ Print Assumptions C04_released_is_free.
 Print Assumptions C04_reachable_pending_distinct.
 Print Assumptions C04_reachable_pending_bound.
 Print Assumptions C04_first_fresh_ack_first.
+Print Assumptions C04_drained_before_every_inbound_packet.
+Print Assumptions C04_drained_flag_not_vacuous.
+Print Assumptions C04_drained_not_refused.
+Print Assumptions C04_qos1_acked_then_delivered_drained.
+Print Assumptions C04_qos2_first_arrival_drained.
+Print Assumptions C04_qos2_duplicate_drained.
+Print Assumptions C04_pubrel_pending_drained.
+Print Assumptions C04_pubrel_unknown_drained.
